@@ -602,7 +602,10 @@ func run(c Case, cc *kit.Case) {
 		cc.Fail("harness/case", "workers=%d", c.Workers)
 		return
 	}
-	if c.LocalOff != 0 {
+	if c.LocalOff != 0 && raceBuild {
+		cc.Label("process-local-zone-left-at-utc(race build)")
+	}
+	if c.LocalOff != 0 && !raceBuild {
 		// the zone of the server: set before the scheduler exists, restored after everything of the
 		// case has ended (the deferred teardown below runs first)
 		time.Local = time.FixedZone("local", c.LocalOff)
